@@ -114,6 +114,18 @@ func self(g int64) *thread {
 	return t
 }
 
+// Name is the registered name of the calling goroutine: the name given to Go, spawn<n> for a
+// goroutine the code started itself (registered at its first Yield), "" when unknown.
+func Name() string {
+	g := gid()
+	mu.Lock()
+	defer mu.Unlock()
+	if t := byGid[g]; t != nil {
+		return t.name
+	}
+	return ""
+}
+
 // Go starts fn as the registered thread name. It is parked ("start") until first stepped; a panic
 // in fn is recovered and recorded.
 func Go(name string, fn func()) {
